@@ -102,11 +102,17 @@ CHECKS['C10'] = dict(category='proof', design_ref='DESIGN.md §7 C10', technique
           "volume is read; observers: get_volume(u) and get_concentration(solute, units) for 24 unit spellings x 3 "
           "solute kinds equal their definition computed from the contents."))
 CHECKS['C11'] = dict(category='proof', design_ref='DESIGN.md §7 C11', technique=CONTAINER_TECH, note=CONTAINER_NOTE + (
-    " Container.dilute is not yet part of this check (fill_to and the _add it relies on are)."),
+    " Container.dilute is proved on explicit mixtures (binary, solute only, ternary, with an enzyme bystander; 1..3 "
+    "substances — bounded in the number of substances, each a complete QF_NRA proof over all amounts and constants); "
+    "quick tier: 4 representative unit pairs, thorough: all 9. The library treats concentrations within a relative "
+    "1e-6 as equal; the target clause allows 2e-6."),
     text=("Container.fill_to for solid and liquid solvents, fill units L/g/mol with several prefixes, relation of the "
           "target to the current quantity (above / equal / below / non-positive) and capacity kind: the result's "
           "total in the fill unit equals the target, only the solvent increased, capacity respected, targets below "
-          "the current quantity refused, reachable targets accepted. Contents of arbitrary size incl. enzymes."))
+          "the current quantity refused, reachable targets accepted. Contents of arbitrary size incl. enzymes. "
+          "Container.dilute: the solute's concentration in the requested unit equals the target, only the solvent "
+          "increased, targets above the current concentration refused and those at or below accepted, no exception "
+          "other than ValueError."))
 CHECKS['C17'] = dict(category='proof', design_ref='DESIGN.md §7 C17', technique=CONTAINER_TECH, note=CONTAINER_NOTE + (
     " Plate/slice remove: real PlateSlicer.remove / Plate.remove / Slicer.apply on plates of small concrete shape with "
     "Container.remove used modularly (per-well, locality, linear, frame). The recipe's trash accounting is not yet "
@@ -161,6 +167,21 @@ CHECKS['C04'] = dict(category='proof', design_ref='DESIGN.md §7 C04',
           "capacity overflow after partial work), `fresh` (results are new objects, never the arguments), and "
           "`frame[arguments]` for objects handed to a recipe. Symbolic contents of arbitrary size; plates of small "
           "concrete shape."))
+
+CHECKS['C12'] = dict(category='proof', design_ref='DESIGN.md §7 C12',
+    technique='contract-based deductive verification: ast->z3 VC generation on the real create_solution_from (2x2 system via a solve axiom), callees Container._transfer / __init__ used through their verified contracts; QF_NRA obligations per explicit mixture',
+    note=COMMON_NOTE + (" numpy.linalg.solve is the trusted axiom T3 (x with A x = b if det != 0, LinAlgError — a "
+                        "ValueError subclass — otherwise). Mixtures are explicit key sets (2..3 substances): bounded in "
+                        "the number of substances, unbounded in amounts, constants, target and quantity. The refusal "
+                        "side is covered only by `no exception other than ValueError` and `some request of each class "
+                        "is accepted`; a closed-form feasibility spec is not stated. Tolerance 1e-6 relative."),
+    text=("For substance and container solvents (with and without solute in the solvent container), representative "
+          "concentration unit pairs x quantity units (all 9 x 6 in the thorough tier), stock mixtures binary / other "
+          "solvent / ternary / with enzyme: at every normal return the new solution has the requested total in the "
+          "quantity unit and the requested solute concentration, residual(s) + solution = inputs (+ added pure "
+          "solvent) per substance, the residual stock is a uniform remainder of the stock, results are non-negative "
+          "with consistent volumes, arguments are not written; only ValueError can be raised, and each request class "
+          "accepts some input."))
 
 NOT_YET = "check not built yet in this round (under construction; not claimed)"
 NOT_APPLICABLE = {}
